@@ -4087,19 +4087,22 @@ impl GlobalInferenceCtx<'_> {
             }
             None => {
                 if must_be_void && !ty.is_void() {
-                    // we just checked that the type wasn't void
-                    assert!(!ty.can_be_created_from_nothing());
+                    // an unknown value has already been reported where it was inferred
+                    if !ty.is_unknown() {
+                        // we just checked that the type wasn't void
+                        assert!(!ty.can_be_created_from_nothing());
 
-                    self.diagnostics.push(TyDiagnostic {
-                        kind: TyDiagnosticKind::Mismatch {
-                            expected: ExpectedTy::Concrete(Ty::Void.into()),
-                            found: ty,
-                        },
-                        file: self.loc.file(),
-                        expr: value,
-                        range: self.bodies.range_for_expr(value.unwrap()),
-                        help: None,
-                    });
+                        self.diagnostics.push(TyDiagnostic {
+                            kind: TyDiagnosticKind::Mismatch {
+                                expected: ExpectedTy::Concrete(Ty::Void.into()),
+                                found: ty,
+                            },
+                            file: self.loc.file(),
+                            expr: value,
+                            range: self.bodies.range_for_expr(value.unwrap()),
+                            help: None,
+                        });
+                    }
 
                     self.tys[self.loc]
                         .expr_tys
